@@ -27,12 +27,13 @@ REQUIRED_PROBES = {"quick": ("nested_transition", "wrong_source", "unknown_trans
                                 "both_passed_check_window")}
 EVIDENCE = {
     "level": "exploration",
-    "rule": ("seeded machine definitions (3-9 states in a parent forest of depth <= 3, 3-12 transitions between leaf "
-             "states with 1-3 sources, enter handlers on leaf states that request a further transition, chains <= 4) and "
-             "the three shipped machines (ControlStateMachine in all 8 initial configurations); seeded request sequences "
-             "incl. unknown names; pairs of requests fired from two simulated threads with line/opcode pre-emption inside "
-             "state_machine.py; non-trivial = a nested transition, a rejected request or a concurrent pair occurred; "
-             "distinct = distinct (machine shape hash, request sequence, scheduler)"),
+    "rule": ("seeded machine definitions (3-9 states in a parent forest of depth <= 3, 3-12 transitions between "
+             "leaf states with 1-3 sources, enter handlers on leaf states that request a further transition, "
+             "chains <= 4) and the three shipped machines (ControlStateMachine in all 8 initial configurations); "
+             "seeded request sequences incl. unknown names; pairs of requests fired from two simulated threads "
+             "with line/opcode pre-emption inside state_machine.py; a leave handler that fails while the request "
+             "is performed (generated machines); non-trivial = a nested transition, a rejected request or a "
+             "concurrent pair occurred; distinct = distinct (machine shape hash, request sequence, scheduler)"),
     "real": ["secsgem.common.StateMachine/State/Transition/EventProducer", "secsgem.gem.ControlStateMachine",
              "secsgem.gem.CommunicationStateMachine (real Timer threads, virtual clock)",
              "secsgem.hsms.ConnectionStateMachine"],
